@@ -12,7 +12,8 @@ import ZvbiModel.Props.C02Interleave
   (the cache half of "every page of the cycle stays fetchable"); both source shapes of `_vbi_cache_put_page`.
 * `single_version_put_replaces_all`: the repaired shape (fixes/C10-put-replaces-all-versions.diff) under a single-version
   key leaves one version of the page number.
-* `page_roundtrip_chain_full` (OPEN, def): a whole cycle of pages of one magazine from a fresh decoder.
+* `page_roundtrip_chain_full` (def; open in round 4, proved in round 5: `C02Chain.page_roundtrip_chain`): a whole cycle of
+  pages of one magazine from a fresh decoder.
 -/
 namespace Zvbi.Props.C02Serial
 open Zvbi.Ttx Zvbi.Hamm Zvbi.Fmt Zvbi.Fmt.L1Spec Zvbi.Props.C02Roundtrip Zvbi.Props.C02Interleave
@@ -164,7 +165,9 @@ example :
       (fun c => c.map (fun q => (q.pgno, q.subno))) = some [(0x100, 0x100), (0x200, 0), (0x100, 2)] := by
   constructor <;> decide +kernel
 
-/-- OPEN: `page_roundtrip_chain` - a whole cycle of pages `txs` of one magazine from a fresh decoder (each page
+/-- (Round 4: OPEN.  Round 5: PROVED - `C02Chain.page_roundtrip_chain : page_roundtrip_chain_full`, a corollary of the
+parallel-mode / several-magazines theorem `C02Chain.page_roundtrip_cycle`; the text below is the round-4 description.)
+`page_roundtrip_chain` - a whole cycle of pages `txs` of one magazine from a fresh decoder (each page
 terminated by the next page's header, the last by `fin`): every page is fetched as the `mergeRows` of its LAST
 transmission, and there is exactly one TTX_PAGE event per transmission.  What is proved towards it: the step
 (`C02Interleave.single_page_roundtrip_from_init`, no shape / channel-switch hypotheses left), `reachable_shape`,
